@@ -622,3 +622,177 @@ package fp
 //@   ensures iterFlatMapStep(r, inner, q, 1, next)
 //@   tag current-some
 //
+// ---------------------------------------------------------------------------
+// Bounded agreement with the eager Seq computation (literal inputs of length
+// <= 3, symbolic elements / functions / predicates; `option unroll`), and
+// protocol interleavings.  Stand-ins, reported as bounded.
+//
+// iterProto(it, want, skip): it yields exactly want; before each Next, HasNext
+// is called twice (must be true both times) except at index skip (skip == -2:
+// HasNext is never called before Next); after the last element HasNext is
+// false (twice), Next panics, HasNext is still false.
+//
+//@ ghost
+//@ func iterProto[T any](it Iterator[T], want []T, skip int) bool {
+//@ 	for k := 0; k < len(want); k++ {
+//@ 		if k != skip && skip != -2 {
+//@ 			if !it.HasNext() || !it.HasNext() {
+//@ 				return false
+//@ 			}
+//@ 		}
+//@ 		v := it.Next()
+//@ 		if !verifspec.Eq(verifspec.W[T](v), verifspec.W[T](want[k])) {
+//@ 			return false
+//@ 		}
+//@ 	}
+//@ 	return !it.HasNext() && !it.HasNext() && Panics(it.Next()) && !it.HasNext()
+//@ }
+//@ func iterProtoAll[T any](mk func() Iterator[T], want []T) bool {
+//@ 	return iterProto(mk(), want, -1) && iterProto(mk(), want, -2) && iterProto(mk(), want, 0) && iterProto(mk(), want, 1)
+//@ }
+//@ end
+//
+//@ lemma iterBoundedTakeDrop[T any](a, b, c T)
+//@   prop C12 C20
+//@   option unroll
+//@   ensures Eq(Seq[T](IteratorOfSeq([]T{a, b, c}).Take(2).ToSeq()), Seq[T]{a, b, c}.Take(2))
+//@   ensures Eq(Seq[T](IteratorOfSeq([]T{a, b, c}).Take(0).ToSeq()), Seq[T]{a, b, c}.Take(0))
+//@   ensures Eq(Seq[T](IteratorOfSeq([]T{a, b, c}).Take(5).ToSeq()), Seq[T]{a, b, c}.Take(5))
+//@   ensures Eq(Seq[T](IteratorOfSeq([]T{a, b, c}).Drop(2).ToSeq()), Seq[T]{a, b, c}.Drop(2))
+//@   ensures Eq(Seq[T](IteratorOfSeq([]T{a, b, c}).Drop(0).ToSeq()), Seq[T]{a, b, c}.Drop(0))
+//@   ensures Eq(Seq[T](IteratorOfSeq([]T{a, b, c}).Drop(5).ToSeq()), Seq[T]{a, b, c}.Drop(5))
+//@   ensures Eq(Seq[T](IteratorOfSeq([]T{a, b, c}).Drop(1).Take(1).ToSeq()), Seq[T]{a, b, c}.Drop(1).Take(1))
+//@   ensures iterProtoAll(func() Iterator[T] { return IteratorOfSeq([]T{a, b, c}) }, []T{a, b, c})
+//@   ensures iterProtoAll(func() Iterator[T] { return IteratorOfSeq([]T{}) }, []T{})
+//@   ensures iterProtoAll(func() Iterator[T] { return IteratorOfSeq([]T{a, b, c}).Take(2) }, []T{a, b})
+//@   ensures iterProtoAll(func() Iterator[T] { return IteratorOfSeq([]T{a, b, c}).Drop(1) }, []T{b, c})
+//@   ensures iterProtoAll(func() Iterator[T] { return IteratorOfOption(Some(a)) }, []T{a})
+//@   ensures iterProtoAll(func() Iterator[T] { return IteratorOfOption(None[T]()) }, []T{})
+//
+//@ lemma iterBoundedFilter[T any](a, b, c T, p func(T) bool)
+//@   prop C12 C20
+//@   option unroll
+//@   ensures Eq(Seq[T](IteratorOfSeq([]T{a, b, c}).Filter(p).ToSeq()), Seq[T]{a, b, c}.Filter(p))
+//@   ensures Eq(Seq[T](IteratorOfSeq([]T{a, b, c}).FilterNot(p).ToSeq()), Seq[T]{a, b, c}.FilterNot(p))
+//@   ensures p(a) && !p(b) && p(c) ==> iterProtoAll(func() Iterator[T] { return IteratorOfSeq([]T{a, b, c}).Filter(p) }, []T{a, c})
+//@   ensures !p(a) && p(b) && !p(c) ==> iterProtoAll(func() Iterator[T] { return IteratorOfSeq([]T{a, b, c}).Filter(p) }, []T{b})
+//@   ensures !p(a) && !p(b) && !p(c) ==> iterProtoAll(func() Iterator[T] { return IteratorOfSeq([]T{a, b, c}).Filter(p) }, []T{})
+//@   ensures !p(a) && p(b) && !p(c) ==> iterProtoAll(func() Iterator[T] { return IteratorOfSeq([]T{a, b, c}).FilterNot(p) }, []T{a, c})
+//
+//@ lemma iterBoundedTakeDropWhile[T any](a, b, c T, p func(T) bool)
+//@   prop C12 C20
+//@   option unroll
+//@   ensures p(a) && p(b) && !p(c) ==> iterProtoAll(func() Iterator[T] { return IteratorOfSeq([]T{a, b, c}).TakeWhile(p) }, []T{a, b})
+//@   ensures p(a) && !p(b) && p(c) ==> iterProtoAll(func() Iterator[T] { return IteratorOfSeq([]T{a, b, c}).TakeWhile(p) }, []T{a})
+//@   ensures !p(a) ==> iterProtoAll(func() Iterator[T] { return IteratorOfSeq([]T{a, b, c}).TakeWhile(p) }, []T{})
+//@   ensures p(a) && p(b) && p(c) ==> iterProtoAll(func() Iterator[T] { return IteratorOfSeq([]T{a, b, c}).TakeWhile(p) }, []T{a, b, c})
+//@   ensures p(a) && p(b) && !p(c) ==> iterProtoAll(func() Iterator[T] { return IteratorOfSeq([]T{a, b, c}).DropWhile(p) }, []T{c})
+//@   ensures p(a) && !p(b) && p(c) ==> iterProtoAll(func() Iterator[T] { return IteratorOfSeq([]T{a, b, c}).DropWhile(p) }, []T{b, c})
+//@   ensures !p(a) ==> iterProtoAll(func() Iterator[T] { return IteratorOfSeq([]T{a, b, c}).DropWhile(p) }, []T{a, b, c})
+//@   ensures p(a) && p(b) && p(c) ==> iterProtoAll(func() Iterator[T] { return IteratorOfSeq([]T{a, b, c}).DropWhile(p) }, []T{})
+//
+//@ lemma iterBoundedMapConcat[T any](a, b, c, d T, mf func(T) T, f func(T))
+//@   prop C12 C20
+//@   option unroll
+//@   ensures Eq(Seq[T](IteratorOfSeq([]T{a, b, c}).Map(mf).ToSeq()), Seq[T]{a, b, c}.Map(mf))
+//@   ensures iterProtoAll(func() Iterator[T] { return IteratorOfSeq([]T{a, b}).Map(mf) }, []T{mf(a), mf(b)})
+//@   ensures iterProtoAll(func() Iterator[T] { return IteratorOfSeq([]T{a, b}).TapEach(f) }, []T{a, b})
+//@   ensures EqT(verifspec.Do(func() { IteratorOfSeq([]T{a, b, c}).Foreach(f) }), verifspec.Do(func() { Seq[T]{a, b, c}.Foreach(f) }))
+//@   ensures EqT(IteratorOfSeq([]T{a, b, c}).TapEach(f).ToSeq(), func() []T { f(a); f(b); f(c); return []T{a, b, c} }())
+//@   ensures Eq(Seq[T](IteratorOfSeq([]T{a, b}).Concat(IteratorOfSeq([]T{c, d})).ToSeq()), Seq[T]{a, b}.Concat(Seq[T]{c, d}))
+//@   ensures Eq(Seq[T](IteratorOfSeq([]T{}).Concat(IteratorOfSeq([]T{c})).ToSeq()), Seq[T]{c})
+//@   ensures Eq(Seq[T](IteratorOfSeq([]T{a}).Concat(IteratorOfSeq([]T{})).ToSeq()), Seq[T]{a})
+//@   ensures Eq(Seq[T](IteratorOfSeq([]T{a, b}).Appended(c).ToSeq()), Seq[T]{a, b}.Add(c))
+//@   ensures iterProtoAll(func() Iterator[T] { return IteratorOfSeq([]T{a}).Concat(IteratorOfSeq([]T{})).Concat(IteratorOfSeq([]T{b, c})) }, []T{a, b, c})
+//@   ensures iterProtoAll(func() Iterator[T] { return IteratorOfSeq([]T{a}).Concat(IteratorOfSeq([]T{b}).Concat(IteratorOfSeq([]T{c}))) }, []T{a, b, c})
+//@   ensures iterProtoAll(func() Iterator[T] { return IteratorOfSeq([]T{a}).Concat(IteratorOfSeq([]T{b})).Concat(IteratorOfSeq([]T{c}).Concat(IteratorOfSeq([]T{d}))) }, []T{a, b, c, d})
+//
+//@ lemma iterBoundedFlatMap[T any](a, b, c T, g func(T) T, h func(T) T, q func(T) bool)
+//@   prop C12 C20
+//@   option unroll
+//@   ensures Eq(Seq[T](IteratorOfSeq([]T{a, b, c}).FlatMap(func(t T) Iterator[T] { return IteratorOfSeq([]T{g(t), h(t)}) }).ToSeq()), Seq[T]{a, b, c}.FlatMap(func(t T) Seq[T] { return Seq[T]{g(t), h(t)} }))
+//@   ensures !q(a) && q(b) && !q(c) ==> iterProtoAll(func() Iterator[T] { return IteratorOfSeq([]T{a, b, c}).FlatMap(func(t T) Iterator[T] { if q(t) { return IteratorOfSeq([]T{g(t), h(t)}) }; return Iterator[T]{} }) }, []T{g(b), h(b)})
+//@   ensures q(a) && !q(b) && q(c) ==> iterProtoAll(func() Iterator[T] { return IteratorOfSeq([]T{a, b, c}).FlatMap(func(t T) Iterator[T] { if q(t) { return IteratorOfSeq([]T{g(t)}) }; return IteratorOfSeq([]T{}) }) }, []T{g(a), g(c)})
+//@   ensures !q(a) && !q(b) && !q(c) ==> iterProtoAll(func() Iterator[T] { return IteratorOfSeq([]T{a, b, c}).FlatMap(func(t T) Iterator[T] { if q(t) { return IteratorOfSeq([]T{g(t)}) }; return IteratorOfSeq([]T{}) }) }, []T{})
+//
+// Concat keeps the flattened list of parts in `concat` and appends to it in
+// place: two iterators built from the same prefix must not influence each
+// other (C04: building y2 must not change what y1 yields).
+//
+//@ ghost
+//@ func iterConcatShared[T any](a, b, c, d, e T) bool {
+//@ 	x := IteratorOfSeq([]T{a}).Concat(IteratorOfSeq([]T{b}).Concat(IteratorOfSeq([]T{c})))
+//@ 	y1 := x.Concat(IteratorOfSeq([]T{d}))
+//@ 	y2 := x.Concat(IteratorOfSeq([]T{e}))
+//@ 	return y2.hasNext != nil && iterProto(y1, []T{a, b, c, d}, -1)
+//@ }
+//@ end
+//
+//@ lemma iterBoundedConcatShared[T any](a, b, c, d, e T)
+//@   prop C12 C04
+//@   option unroll
+//@   ensures iterConcatShared(a, b, c, d, e)
+//
+// Zero value, continued: every remaining method treats Iterator[T]{} as empty;
+// Next on it panics.
+//
+//@ lemma iteratorZeroValue2[T any](p func(T) bool, f func(T), e T, mf func(T) Iterator[T])
+//@   prop C20
+//@   option unroll
+//@   ensures Panics(Iterator[T]{}.Next())
+//@   ensures !Iterator[T]{}.FilterNot(p).HasNext() && Panics(Iterator[T]{}.FilterNot(p).Next())
+//@   ensures !Iterator[T]{}.FlatMap(mf).HasNext() && Panics(Iterator[T]{}.FlatMap(mf).Next())
+//@   ensures Panics(Iterator[T]{}.Take(3).Next()) && Panics(Iterator[T]{}.TakeWhile(p).Next()) && Panics(Iterator[T]{}.DropWhile(p).Next()) && Panics(Iterator[T]{}.Filter(p).Next())
+//@   ensures Panics(Iterator[T]{}.Map(func(t T) T { return t }).Next()) && Panics(Iterator[T]{}.TapEach(f).Next()) && Panics(Iterator[T]{}.Concat(Iterator[T]{}).Next()) && Panics(Iterator[T]{}.Drop(1).Next())
+//@   ensures EqT(verifspec.Do(func() { Iterator[T]{}.Foreach(f) }), 0)
+//@   ensures iterProtoAll(func() Iterator[T] { return Iterator[T]{}.Appended(e) }, []T{e})
+//@   ensures iterProtoAll(func() Iterator[T] { return Iterator[T]{}.Concat(IteratorOfSeq([]T{e})) }, []T{e})
+//@   ensures iterProtoAll(func() Iterator[T] { return IteratorOfSeq([]T{e}).Concat(Iterator[T]{}) }, []T{e})
+//@   ensures len(Iterator[T]{}.Take(2).ToSeq()) == 0 && len(Iterator[T]{}.Filter(p).ToSeq()) == 0 && len(Iterator[T]{}.Concat(Iterator[T]{}).ToSeq()) == 0 && len(Iterator[T]{}.FlatMap(mf).ToSeq()) == 0
+//
+// Concat of three unbounded sources, both associations (the `concat` field
+// flattens nested Concats): first step from the initial shape at arbitrary
+// source positions.
+//
+//@ ghost
+//@ func iterConcat3Step[T any](a, b, c Iterator[T], leftAssoc bool, next bool) bool {
+//@ 	it := iterWrap(a).Concat(iterWrap(b).Concat(iterWrap(c)))
+//@ 	if leftAssoc {
+//@ 		it = iterWrap(a).Concat(iterWrap(b)).Concat(iterWrap(c))
+//@ 	}
+//@ 	c0 := verifspec.IterPos(a) == 0 && verifspec.IterPos(b) == 0 && verifspec.IterPos(c) == 0
+//@ 	verifspec.Havoc(a, b, c)
+//@ 	pa := verifspec.IterPos(a)
+//@ 	pb := verifspec.IterPos(b)
+//@ 	pc := verifspec.IterPos(c)
+//@ 	ha := pa < verifspec.IterLen(a)
+//@ 	hb := pb < verifspec.IterLen(b)
+//@ 	hc := pc < verifspec.IterLen(c)
+//@ 	want := ha || hb || hc
+//@ 	if !c0 || it.HasNext() != want || it.HasNext() != want || verifspec.IterPos(a) != pa || verifspec.IterPos(b) != pb || verifspec.IterPos(c) != pc {
+//@ 		return false
+//@ 	}
+//@ 	if !next {
+//@ 		return true
+//@ 	}
+//@ 	if !want {
+//@ 		return Panics(it.Next())
+//@ 	}
+//@ 	v := it.Next()
+//@ 	if ha {
+//@ 		return Eq(v, verifspec.IterAt[T](a, pa)) && verifspec.IterPos(a) == pa+1 && verifspec.IterPos(b) == pb && verifspec.IterPos(c) == pc
+//@ 	}
+//@ 	if hb {
+//@ 		return Eq(v, verifspec.IterAt[T](b, pb)) && verifspec.IterPos(b) == pb+1 && verifspec.IterPos(c) == pc && it.HasNext() == (pb+1 < verifspec.IterLen(b) || hc)
+//@ 	}
+//@ 	return Eq(v, verifspec.IterAt[T](c, pc)) && verifspec.IterPos(c) == pc+1 && verifspec.IterPos(b) == pb && it.HasNext() == (pc+1 < verifspec.IterLen(c))
+//@ }
+//@ end
+//
+//@ lemma iterConcat3[T any](a, b, c Iterator[T], next bool)
+//@   prop C12 C20
+//@   ensures iterConcat3Step(a, b, c, false, next)
+//@   tag right-assoc
+//@   ensures iterConcat3Step(a, b, c, true, next)
+//@   tag left-assoc
+//
